@@ -79,13 +79,13 @@ class C14(Check):
                         ('fast_ticc/graphical_lasso.py', "LOGGER = logging.getLogger(__name__)\n", "LOGGER = logging.getLogger(__name__)\n_FINISHED = []\n")]}
 
     def bounds(self, tier):
-        return {'K': '2..3', 'iteration_limit': '1..2', 'num_processors': '1..8', 'env': ['unset', "''", "'1'"],
+        return {'K': '2..3' if tier == 'quick' else '2..4', 'iteration_limit': '1..2' if tier == 'quick' else '1..3', 'num_processors': '1..8', 'env': ['unset', "''", "'1'"],
                 'cache orders': '(N,W) pairs from {(1,2),(2,1),(2,2)} in every order'}
 
     def configs(self, tier):
         cfgs = []
-        for K in (2, 3):
-            for lim in (1, 2):
+        for K in ((2, 3) if tier == 'quick' else (2, 3, 4)):
+            for lim in ((1, 2) if tier == 'quick' or K == 4 else (1, 2, 3)):
                 cfgs.append(Config('schedule_K%d_lim%d' % (K, lim), self.schedule, {'K': K, 'lim': lim}, split=3))
         cfgs.append(Config('pool_size', self.pool_size, {'K': 2}, split=2))
         cfgs.append(Config('repopulating_runs', self.repopulating_runs, {}, split=3))
